@@ -372,4 +372,88 @@ theorem normAttrs_idem (p : PCfg) (h32 : p.reSpace.contains 32 = true) (f : Fmt)
       simp [he.1, he.2]
     · simp [he, valText]
 
+/-! ### what the normalisation does to the attributes of a real `dict` (distinct keys) -/
+
+theorem insertAttr_perm (x : PStr × AVal) : ∀ (l : List (PStr × AVal)), (insertAttr x l).Perm (x :: l)
+  | [] => by simp [insertAttr]
+  | y :: ys => by
+    simp only [insertAttr]
+    split
+    · exact List.Perm.refl _
+    · exact ((insertAttr_perm x ys).cons y).trans (List.Perm.swap x y ys)
+
+theorem sortAttrs_perm : ∀ (l : List (PStr × AVal)), (sortAttrs l).Perm l
+  | [] => by simp [sortAttrs]
+  | x :: xs => by
+    simp only [sortAttrs]
+    exact (insertAttr_perm x _).trans ((sortAttrs_perm xs).cons x)
+
+theorem insertAttr_map (φ : PStr × AVal → PStr × AVal) (hφ : ∀ x, (φ x).1 = x.1) (x : PStr × AVal) :
+    ∀ (l : List (PStr × AVal)), insertAttr (φ x) (l.map φ) = (insertAttr x l).map φ
+  | [] => by simp [insertAttr]
+  | y :: ys => by
+    simp only [List.map_cons, insertAttr, hφ]
+    split
+    · simp
+    · simp [insertAttr_map φ hφ x ys]
+
+/-- a key-preserving map commutes with the sort -/
+theorem sortAttrs_map (φ : PStr × AVal → PStr × AVal) (hφ : ∀ x, (φ x).1 = x.1) :
+    ∀ (l : List (PStr × AVal)), sortAttrs (l.map φ) = (sortAttrs l).map φ
+  | [] => by simp [sortAttrs]
+  | x :: xs => by simp only [List.map_cons, sortAttrs, sortAttrs_map φ hφ xs, insertAttr_map φ hφ]
+
+theorem keysNodup_iff : ∀ (ks : List PStr), keysNodup ks = true ↔ ks.Nodup
+  | [] => by simp [keysNodup]
+  | k :: ks => by simp [keysNodup, keysNodup_iff ks]
+
+/-- sorted with distinct keys is strictly sorted -/
+theorem strict_of_sorted_nodup (l : List (PStr × AVal)) (hs : SortedK l) (hn : (l.map (·.1)).Nodup) : StrictK l := by
+  have hn' : l.Pairwise (fun x y => x.1 ≠ y.1) := by
+    simpa [List.Nodup, List.pairwise_map] using hn
+  refine (hs.and hn').imp ?_
+  intro x y h
+  cases hlt : ltL x.1 y.1 with
+  | true => rfl
+  | false => exact absurd (ltL_total x.1 y.1 hlt h.1) h.2
+
+/-- the text a value is written as and read back as -/
+def valRead : AVal → PStr
+  | .none => []
+  | v => valText v
+
+/-- the value a re-parse gives an attribute: the written text, split if the attribute is multi-valued for the tag -/
+def normVal (p : PCfg) (nm : PStr) (kv : PStr × AVal) : PStr × AVal :=
+  (kv.1, if isCdataListAttr p nm kv.1 then AVal.list (splitWs p (valRead kv.2)) else AVal.str (valRead kv.2))
+
+/-- **same attributes**: for the attributes of a dict (distinct keys) the normal form is: the same keys, sorted, each
+    with the text its value is written as (`None` → `""`, a list joined by spaces) — split again on whitespace when
+    the attribute is multi-valued for the tag. Whether `""` is written as a bare key makes no difference. -/
+theorem normAttrs_spec (p : PCfg) (f : Fmt) (nm : PStr) (a : List (PStr × AVal)) (hn : keysNodup (a.map (·.1)) = true) :
+    normAttrs p f nm a = (sortAttrs a).map (normVal p nm) := by
+  have hN : (a.map (·.1)).Nodup := (keysNodup_iff _).mp hn
+  have hS : StrictK (sortAttrs a) := by
+    apply strict_of_sorted_nodup _ (sortedK_sort a)
+    exact ((sortAttrs_perm a).map _).nodup_iff.mpr hN
+  let e : PStr × AVal → PStr × AVal := fun kv => (kv.1, if f.emptyBool && kv.2 == AVal.str [] then AVal.none else kv.2)
+  have he : fmtAttributes f a = (sortAttrs a).map e := sortAttrs_map e (fun _ => rfl) a
+  have hE : StrictK (evAttrs f a) := by
+    unfold evAttrs
+    rw [he]
+    rw [strictK_iff_keys] at hS ⊢
+    simpa [List.map_map, Function.comp_def, e] using hS
+  unfold normAttrs buildAttrs
+  rw [adaptAttrs_nodup _ hE]
+  unfold evAttrs
+  rw [he]
+  simp only [List.map_map]
+  apply List.map_congr_left
+  intro x _
+  simp only [Function.comp, normVal, e]
+  by_cases hb : (f.emptyBool && x.2 == AVal.str []) = true
+  · simp only [Bool.and_eq_true, beq_iff_eq] at hb
+    simp [hb.1, hb.2, valRead, valText]
+  · simp only [hb, Bool.false_eq_true, if_false]
+    cases hv : x.2 <;> simp [valRead, valText]
+
 end BS.Render
